@@ -160,8 +160,8 @@ def make_body(max_len, sup_len, ALPHA=ALPHA, own_report=False):
 
 
 def _verdict(ctx, fbs, sups, case):
-    elig = [f for f in fbs if ref.eligible(f, sups)]
-    want = all(bool(f.correct) for f in elig)
+    elig = [f for f in fbs if ref.eligible(ref._Req(f), sups)]       # what was asked for (the arm of a pool included)
+    want = all(bool(ref._Req(f).correct) for f in elig)
     ctx.step('simple.resolve')
     try:
         r = simple.resolve()
@@ -227,6 +227,83 @@ def body_scripts(ctx):
     _verdict(ctx, fbs, sups, case)
 
 
+SEC2_ALPHA = [dict(category='instructor'), dict(category='instructor', muted=True), dict(via='set_correct'), dict(via='compliment'),
+              dict(category='runtime', activate=False), dict(category='specification', priority='low'),
+              dict(category='complete', correct=True, valence=1)]
+
+
+def body_sectional(ctx):
+    """Sectional resolver: every group (parent) of feedbacks gets the verdict its own eligible feedbacks imply,
+    in whatever order the groups' feedbacks were created."""
+    from pedal.resolvers import sectional
+    n = ctx.choose(4, 'n') + 1
+    ds = []
+    for k in range(n):
+        d = dict(SEC2_ALPHA[ctx.choose(len(SEC2_ALPHA), 'fb%d' % k)])
+        par = c01.PARENTS[ctx.choose(len(c01.PARENTS), 'parent%d' % k)]
+        if par is not None:
+            d['parent'] = par
+        ds.append(d)
+    cmds.clear_report()
+    fbs = []
+    for k, d in enumerate(ds):
+        fb = c01._mk(d, k)
+        if getattr(fb, '_verif_req', None):
+            fb._verif_req.pop('parent', None)
+        fbs.append(fb)
+    case = {'feedbacks': ds, 'suppressions': []}
+    ctx.observe(repr(ds))
+    ctx.set_sample(case)
+    parents = [d.get('parent') for d in ds]
+    groups = list(dict.fromkeys(parents))
+    if len(groups) > 1 and parents != sorted(parents, key=groups.index):
+        ctx.mark_nontrivial(repr(ds))
+    ctx.step('sectional.resolve')
+    try:
+        finals = sectional.resolve()
+    except Exception as e:
+        ctx.fail({'symptom': 'resolve raised', 'exception': type(e).__name__}, case=case, message=str(e)[:200])
+        return
+    for g in groups:
+        mine = [f for f, d in zip(fbs, ds) if d.get('parent') == g and f in MAIN_REPORT.feedback]
+        if g not in finals:
+            continue
+        elig = [f for f in mine if ref.eligible(f, [])]
+        want = all(bool(f.correct) for f in elig)
+        got = finals[g].correct
+        if got is not want:
+            ctx.fail({'symptom': 'wrong correctness', 'direction': 'sectional resolver, verdict of a group',
+                      'consistent': True}, case=case, group=g, expected=want, got=got)
+    ctx.outcome('sectional-%d' % len(groups))
+
+
+def body_pools(ctx):
+    """An A/B arm that mutes or un-mutes every feedback: the verdict follows the attributes the arm leaves."""
+    from pedal.core.feedback import Feedback as FB
+    d1 = dict(SEC2_ALPHA[ctx.choose(len(SEC2_ALPHA), 'first')])
+    d2 = dict(SEC2_ALPHA[ctx.choose(len(SEC2_ALPHA), 'second')])
+    arm = (True, False, None)[ctx.choose(3, 'arm-mutes')]
+    cmds.clear_report()
+    saved = dict(FB._pools)
+    try:
+        cmds.set_pools(['arm'])
+        if arm is not None:
+            FB.override_for_pool('arm', muted=arm)
+        fbs = [c01._mk(d1, 0), c01._mk(d2, 1)]
+        if arm is not None:
+            for f in fbs:
+                f._verif_req['muted'] = arm
+        case = {'feedbacks': [d1, d2], 'pool_mutes': arm, 'suppressions': []}
+        ctx.observe(repr(case))
+        ctx.set_sample(case)
+        ctx.mark_nontrivial(repr(case))
+        _verdict(ctx, fbs, [], case)
+    finally:
+        FB._pools.clear()
+        FB._pools.update(saved)
+        MAIN_REPORT.set_pools([])
+
+
 def bounds(tier):
     return {'alphabet': len(ALPHA), 'max_len': 3 if tier == 'quick' else 4, 'suppression_sets': len(SUPSETS),
             'suppression_cross_up_to_len': 2 if tier == 'quick' else 3}
@@ -242,6 +319,9 @@ def phases(tier):
                                                                                'compliment', 'set_correct', 'give_partial')],
                                           own_report=True), setup=_setup,
                   describe='sequences <=2 on a caller-owned Report passed by keyword or position, decoy on the global report'),
+            Phase('sectional', body_sectional, setup=_setup,
+                  describe='sectional resolver: <=4 feedbacks over 7 descriptors x 3 groups in every creation order'),
+            Phase('pools', body_pools, setup=_setup, describe='an A/B arm that mutes / un-mutes every feedback'),
             Phase('large-reports', body_large, setup=_setup, chunk=20,
                   describe='9..130 feedbacks that do not decide the verdict around one that does'),
             Phase('labels-in-other-scripts', body_scripts, setup=_setup,
